@@ -384,6 +384,12 @@ class Result:
                 reported.append((sig, desc, replay, no_input))
         for (pat, text), n in known_hit.items():
             print("KNOWN-FINDING: property=%s %s (sig=%s, %d occurrence(s) this run)" % (self.pid, text, pat, n))
+        # a broken proof/translation for which the correspondence found a concrete failing input is reported with that input
+        concrete = [(sig, replay) for sig, desc, replay, no_input in reported if not no_input]
+        if concrete:
+            reported = [(sig, desc + ("\n  concrete failing input: see signature %s" % concrete[0][0] if no_input else ""),
+                         (dict(replay, failing_input=concrete[0][1]) if no_input and isinstance(replay, dict) else replay), False)
+                        for sig, desc, replay, no_input in reported]
         seen = set()
         nrep = 0
         for sig, desc, replay, no_input in reported:
